@@ -35,6 +35,20 @@ def observe(cx, impl=None):
     run(0, 'fast_generate_from', lambda: algorithms.fast_generate_from(ctx))
     run(1, 'fcbo_dual', lambda: algorithms.fcbo_dual(ctx))
     run(0, 'get_concepts', lambda: algorithms.get_concepts(ctx))
+
+    def get_concepts_again():
+        # the returned list belongs to the caller: editing it must not change later results
+        first = algorithms.get_concepts(ctx)
+        try:
+            first.sort(key=lambda c: -int(c[0]))
+            del first[1:]
+            first.append(first[0])
+        except Exception:  # noqa: BLE001
+            pass
+        it = algorithms.iterconcepts(ctx)
+        next(it, None)                      # an abandoned iterator
+        return algorithms.get_concepts(ctx)
+    run(0, 'get_concepts after the caller edited an earlier result', get_concepts_again)
     run(0, 'iterconcepts', lambda: algorithms.iterconcepts(ctx))
     run(0, 'context.lattice', lambda: [(c._extent, c._intent) for c in ctx.lattice])
     run(1, 'context.lattice (vs dual)', lambda: [(c._extent, c._intent) for c in ctx.lattice])
